@@ -22,169 +22,277 @@ Lemma pin_cart_paths :
    [126; 47; 46; 108; 101; 120; 97; 108; 111; 102; 102; 108; 101; 47; 112; 105; 99; 111; 45; 56; 47; 99; 97; 114; 116; 115]].
 Proof. reflexivity. Qed.
 
+(* the shapes of the two containment tests the generator found in p8.py *)
+Lemma pin_containment_kinds : include_containment_kind = 1 /\ root_detection_kind = 2.
+Proof. split; reflexivity. Qed.
+
 Section IncludeContain.
 Variable cart_paths : list bytes.
+Variable root_kind inc_kind : Z.
 Variable cwd home : bytes.
 Variable isfile : bytes -> bool.
 Hypothesis cwd_abs : absolute cwd = true.
 
-Notation root_of := (get_root_include_path cart_paths cwd home).
-Notation root_fixed_of := (get_root_include_path_fixed cart_paths cwd home).
+Notation root_of := (get_root_include_path cart_paths root_kind cwd home).
+Notation resolve := (resolve_include cart_paths root_kind inc_kind cwd home isfile).
 
 Lemma full_path_abs p : absolute (full_path cwd home p) = true.
 Proof. apply abspath_absolute. exact cwd_abs. Qed.
 
-Lemma root_scan_abs full cands : forall acc,
-  (forall r, acc = Some r -> absolute r = true) ->
-  forall r, root_scan cwd home full cands acc = Some r -> absolute r = true.
+(* whatever root_scan returns is absolute and passed the test against the cart's path *)
+Lemma root_scan_sound full cands : forall acc,
+  (forall r, acc = Some r -> absolute r = true /\ contain_test root_kind r full = true) ->
+  forall r, root_scan root_kind cwd home full cands acc = Some r ->
+  absolute r = true /\ contain_test root_kind r full = true.
 Proof.
   induction cands as [|c cs IH]; intros acc Hacc r; cbn [root_scan]; [apply Hacc|].
-  apply IH. intros r'. destruct (starts_with _ full); [|apply Hacc].
-  intros [= <-]. apply full_path_abs.
+  apply IH. intros r'. destruct (contain_test _ _ full) eqn:E; [|apply Hacc].
+  intros [= <-]. split; [apply full_path_abs | exact E].
 Qed.
 
 Lemma root_abs cart : absolute (root_of cart) = true.
 Proof.
   unfold get_root_include_path.
-  destruct (root_scan cwd home (full_path cwd home cart) cart_paths None) as [r|] eqn:E.
-  - eapply root_scan_abs; [|exact E]. discriminate.
+  destruct (root_scan root_kind cwd home (full_path cwd home cart) cart_paths None) as [r|] eqn:E.
+  - eapply root_scan_sound; [|exact E]. discriminate.
   - apply dirname_absolute, full_path_abs.
 Qed.
 
-Lemma root_scan_fixed_sound full cands : forall acc,
-  (forall r, acc = Some r -> absolute r = true /\ contained_fixed r full = true) ->
-  forall r, root_scan_fixed cwd home full cands acc = Some r ->
-  absolute r = true /\ contained_fixed r full = true.
+(* the separator-aware tests (kinds 1 and 2) imply separator-aligned textual containment *)
+Lemma join_empty_aligned root p :
+  absolute root = true -> starts_with (join root []) p = true -> sep_aligned root p.
 Proof.
-  induction cands as [|c cs IH]; intros acc Hacc r; cbn [root_scan_fixed]; [apply Hacc|].
-  apply IH. intros r'. destruct (contained_fixed _ full) eqn:E; [|apply Hacc].
-  intros [= <-]. split; [apply full_path_abs | exact E].
+  intros Ha H. right. unfold join in H. cbn [isabs starts_with] in H. rewrite app_nil_r in H.
+  destruct root as [|c0 root0]; [discriminate|]. cbn [is_empty orb] in H.
+  destruct (ends_with_slash (c0 :: root0)) eqn:Es.
+  - destruct (ends_with_slash_spec _ Es) as (a & Er). rewrite Er in *.
+    apply starts_with_app in H as (r & ->). rewrite <- app_assoc. cbn [app].
+    exists a, r. destruct a as [|c a].
+    + right. split; reflexivity.
+    + left. split; [right; reflexivity|]. split; [discriminate|reflexivity].
+  - apply starts_with_app in H as (r & ->). rewrite <- app_assoc. cbn [app].
+    exists (c0 :: root0), r. left. split; [left; reflexivity|]. split; [discriminate|reflexivity].
 Qed.
 
-Lemma root_fixed_abs cart : absolute (root_fixed_of cart) = true.
+Lemma contain_test_aligned kind root p :
+  kind = 1 \/ kind = 2 -> absolute root = true -> contain_test kind root p = true -> sep_aligned root p.
 Proof.
-  unfold get_root_include_path_fixed.
-  destruct (root_scan_fixed cwd home (full_path cwd home cart) cart_paths None) as [r|] eqn:E.
-  - eapply root_scan_fixed_sound; [|exact E]. discriminate.
-  - apply dirname_absolute, full_path_abs.
+  intros [-> | ->] Ha H; unfold contain_test in H; cbn [Z.eqb Pos.eqb] in H.
+  - apply orb_true_iff in H as [H|H]; [left; apply zlist_eqb_eq; exact H | apply join_empty_aligned; assumption].
+  - apply join_empty_aligned; assumption.
 Qed.
 
-(* the patched test implies separator-aligned textual containment *)
-Lemma contained_fixed_aligned root p :
-  absolute root = true -> contained_fixed root p = true -> sep_aligned root p.
+(* every test shape implies the textual prefix *)
+Lemma contain_test_prefix kind root p :
+  kind = 0 \/ kind = 1 \/ kind = 2 -> absolute root = true -> contain_test kind root p = true -> exists rest, p = root ++ rest.
 Proof.
-  intros Ha H. unfold contained_fixed in H. apply orb_true_iff in H as [H|H].
-  - left. apply zlist_eqb_eq. exact H.
-  - right. destruct (ends_with_slash root) eqn:Es.
-    + destruct (ends_with_slash_spec root Es) as (a & ->).
-      apply starts_with_app in H as (r & ->). rewrite <- app_assoc. cbn [app].
-      exists a, r. destruct a as [|c a].
-      * right. split; reflexivity.
-      * left. split; [right; reflexivity|]. split; [discriminate|reflexivity].
-    + apply starts_with_app in H as (r & ->). rewrite <- app_assoc. cbn [app].
-      exists root, r. left. split; [left; reflexivity|]. split; [|reflexivity].
-      destruct root; [discriminate|discriminate].
+  intros [-> | Hk] Ha H.
+  - unfold contain_test in H. cbn [Z.eqb] in H. apply starts_with_app. exact H.
+  - destruct (contain_test_aligned kind root p Hk Ha H) as [->|(a & r & [([->| ->] & _ & ->)|(-> & ->)])].
+    + exists []. rewrite app_nil_r. reflexivity.
+    + eexists. reflexivity.
+    + exists r. rewrite <- app_assoc. reflexivity.
+    + eexists. reflexivity.
 Qed.
 
 Lemma include_full_no_parent cart inc :
   Forall not_parent (components (include_full_path cwd cart inc)).
 Proof. apply abspath_no_parent. exact cwd_abs. Qed.
 
-(* today's code: containment only under the separator-alignment hypothesis *)
+(* what include_full_path computes is located where the include string points: relative to
+   the directory of the including cart *)
+Lemma include_full_location cart inc :
+  locate cwd (include_full_path cwd cart inc) = locate cwd (join (dirname cart) inc).
+Proof. unfold include_full_path. rewrite locate_abspath by exact cwd_abs. apply locate_normpath. Qed.
+
+(* plain-prefix test in process_includes (kind 0): containment only under the alignment hypothesis *)
 Lemma include_contained_partial cart inc p :
-  resolve_include cart_paths cwd home isfile cart inc = Ok p ->
-  sep_aligned (root_of cart) p ->
-  under cwd (root_of cart) p.
+  resolve cart inc = Ok p -> sep_aligned (root_of cart) p -> under cwd (root_of cart) p.
 Proof.
   unfold resolve_include. intros H Hal.
-  destruct (negb (starts_with _ _)); [discriminate|].
+  destruct (negb (contain_test _ _ _)); [discriminate|].
   destruct (negb (isfile _)); [discriminate|].
   injection H as <-. apply sep_aligned_under; [apply include_full_no_parent | exact Hal].
 Qed.
 
-(* a resolved include is always textually prefixed by the root (what the code checks) *)
-Lemma include_prefixed cart inc p :
-  resolve_include cart_paths cwd home isfile cart inc = Ok p ->
-  exists rest, p = root_of cart ++ rest.
+(* the separator-aware test: containment without any hypothesis on the strings *)
+Lemma include_contained cart inc p :
+  inc_kind = 1 \/ inc_kind = 2 ->
+  resolve cart inc = Ok p -> under cwd (root_of cart) p.
 Proof.
-  unfold resolve_include. intros H.
-  destruct (starts_with _ _) eqn:E; cbn [negb] in H; [|discriminate].
-  destruct (negb (isfile _)); [discriminate|].
-  injection H as <-. apply starts_with_app. exact E.
-Qed.
-
-(* the candidate patch: containment without any hypothesis on the strings *)
-Lemma include_contained_fixed cart inc p :
-  resolve_include_fixed cart_paths cwd home isfile cart inc = Ok p ->
-  under cwd (root_fixed_of cart) p.
-Proof.
-  unfold resolve_include_fixed. intros H.
-  destruct (contained_fixed _ _) eqn:E; cbn [negb] in H; [|discriminate].
+  unfold resolve_include. intros Hk H.
+  destruct (contain_test _ _ _) eqn:E; cbn [negb] in H; [|discriminate].
   destruct (negb (isfile _)); [discriminate|].
   injection H as <-. apply sep_aligned_under; [apply include_full_no_parent|].
-  apply contained_fixed_aligned; [apply root_fixed_abs | exact E].
+  apply (contain_test_aligned inc_kind); [exact Hk | apply root_abs | exact E].
 Qed.
 
-(* the patched carts-folder detection only ever selects a folder the cart really lies in *)
-Lemma root_fixed_sound cart :
-  (exists c, In c cart_paths /\ root_fixed_of cart = full_path cwd home c /\
-             under cwd (root_fixed_of cart) (expanduser home cart))
-  \/ root_fixed_of cart = dirname (full_path cwd home cart).
+(* ... hence an include string that points outside the root is rejected, whatever the file system holds *)
+Lemma include_rejects_outside cart inc :
+  inc_kind = 1 \/ inc_kind = 2 ->
+  underb cwd (root_of cart) (join (dirname cart) inc) = false ->
+  resolve cart inc = Err IncludeOutside.
 Proof.
-  unfold get_root_include_path_fixed.
-  destruct (root_scan_fixed cwd home (full_path cwd home cart) cart_paths None) as [r|] eqn:E; [left|right; reflexivity].
+  intros Hk Hout. unfold resolve_include.
+  destruct (contain_test _ _ _) eqn:E; cbn [negb]; [|reflexivity].
+  exfalso.
+  assert (Hu : under cwd (root_of cart) (include_full_path cwd cart inc)).
+  { apply sep_aligned_under; [apply include_full_no_parent|].
+    apply (contain_test_aligned inc_kind); [exact Hk | apply root_abs | exact E]. }
+  unfold under in Hu. rewrite include_full_location in Hu.
+  apply (proj2 (underb_spec cwd _ _)) in Hu. rewrite Hu in Hout. discriminate.
+Qed.
+
+(* an accepted include is the file the string denotes, and it exists *)
+Lemma include_ok_spec cart inc p :
+  resolve cart inc = Ok p ->
+  p = include_full_path cwd cart inc /\ isfile p = true /\ locate cwd p = locate cwd (join (dirname cart) inc).
+Proof.
+  unfold resolve_include. intros H.
+  destruct (negb (contain_test _ _ _)); [discriminate|].
+  destruct (isfile _) eqn:Ef; cbn [negb] in H; [|discriminate].
+  injection H as <-. split; [reflexivity|]. split; [exact Ef | apply include_full_location].
+Qed.
+
+Lemma include_missing cart inc :
+  isfile (include_full_path cwd cart inc) = false ->
+  resolve cart inc = Err IncludeNotFound \/ resolve cart inc = Err IncludeOutside.
+Proof.
+  intros Hf. unfold resolve_include. destruct (negb (contain_test _ _ _)); [right; reflexivity|].
+  rewrite Hf. left. reflexivity.
+Qed.
+
+(* the separator-aware carts-folder detection only ever selects a folder the cart really lies in *)
+Lemma root_sound cart :
+  root_kind = 1 \/ root_kind = 2 ->
+  (exists c, In c cart_paths /\ root_of cart = full_path cwd home c /\
+             under cwd (root_of cart) (expanduser home cart))
+  \/ root_of cart = dirname (full_path cwd home cart).
+Proof.
+  intros Hk. unfold get_root_include_path.
+  destruct (root_scan root_kind cwd home (full_path cwd home cart) cart_paths None) as [r|] eqn:E; [left|right; reflexivity].
   assert (G : forall cands acc,
-    (forall r, acc = Some r -> exists c, In c cart_paths /\ r = full_path cwd home c /\ contained_fixed r (full_path cwd home cart) = true) ->
+    (forall r, acc = Some r -> exists c, In c cart_paths /\ r = full_path cwd home c /\ contain_test root_kind r (full_path cwd home cart) = true) ->
     (forall c, In c cands -> In c cart_paths) ->
-    forall r, root_scan_fixed cwd home (full_path cwd home cart) cands acc = Some r ->
-    exists c, In c cart_paths /\ r = full_path cwd home c /\ contained_fixed r (full_path cwd home cart) = true).
-  { induction cands as [|c cs IH]; intros acc Hacc Hin r0; cbn [root_scan_fixed]; [apply Hacc|].
+    forall r, root_scan root_kind cwd home (full_path cwd home cart) cands acc = Some r ->
+    exists c, In c cart_paths /\ r = full_path cwd home c /\ contain_test root_kind r (full_path cwd home cart) = true).
+  { induction cands as [|c cs IH]; intros acc Hacc Hin r0; cbn [root_scan]; [apply Hacc|].
     apply IH; [|intros c' Hc'; apply Hin; right; exact Hc'].
-    intros r'. destruct (contained_fixed _ _) eqn:Ec; [|apply Hacc].
+    intros r'. destruct (contain_test _ _ _) eqn:Ec; [|apply Hacc].
     intros [= <-]. exists c. split; [apply Hin; left; reflexivity|]. split; [reflexivity|exact Ec]. }
   destruct (G cart_paths None ltac:(discriminate) ltac:(auto) r E) as (c & Hc & -> & Hcf).
   exists c. split; [exact Hc|]. split; [reflexivity|].
   assert (Hu : under cwd (full_path cwd home c) (full_path cwd home cart)).
   { apply sep_aligned_under; [apply abspath_no_parent; exact cwd_abs|].
-    apply contained_fixed_aligned; [apply full_path_abs | exact Hcf]. }
+    apply (contain_test_aligned root_kind); [exact Hk | apply full_path_abs | exact Hcf]. }
   unfold under in *. unfold full_path in Hu at 2.
   rewrite locate_abspath, locate_normpath in Hu by exact cwd_abs. exact Hu.
 Qed.
+
+(* the cart's own directory, as a location *)
+Lemma own_dir_location cart :
+  locate cwd (dirname (full_path cwd home cart)) = locate cwd (dir_part (full_path cwd home cart)).
+Proof. apply locate_dirname. Qed.
 End IncludeContain.
 
-(* ---- the containment statement without the hypothesis is false of today's code ---- *)
+(* ---- the plain string-prefix variants of the two tests (the code before the fixes) are refuted ---- *)
 Definition t_cwd : bytes := [47; 116].                                              (* /t *)
 Definition t_home : bytes := [47; 104].                                             (* /h *)
 Definition t_cart : bytes := [47; 116; 47; 102; 111; 111; 47; 99; 46; 112; 56].     (* /t/foo/c.p8 *)
 Definition t_inc : bytes := [46; 46; 47; 102; 111; 111; 98; 97; 114; 47; 120; 46; 108; 117; 97].  (* ../foobar/x.lua *)
 
-Lemma include_contained_refuted :
+Lemma include_prefix_variant_refuted :
   exists cwd home isfile cart inc p,
     absolute cwd = true /\
-    resolve_include_now cwd home isfile cart inc = Ok p /\
-    underb cwd (inc_root_now cwd home cart) p = false.
+    resolve_include_prefix cwd home isfile cart inc = Ok p /\
+    underb cwd (inc_root_prefix cwd home cart) p = false.
 Proof.
   exists t_cwd, t_home, (fun _ => true), t_cart, t_inc,
     [47; 116; 47; 102; 111; 111; 98; 97; 114; 47; 120; 46; 108; 117; 97].    (* /t/foobar/x.lua *)
   vm_compute. repeat split; reflexivity.
 Qed.
 
-(* the carts-folder detection has the same flaw: a cart in <carts>X is given the root <carts> *)
+(* the carts-folder detection had the same flaw: a cart in <carts>X was given the root <carts> *)
 Definition t_cart2 : bytes :=   (* /h/.lexaloffle/pico-8/cartsX/c.p8 *)
   [47; 104; 47; 46; 108; 101; 120; 97; 108; 111; 102; 102; 108; 101; 47; 112; 105; 99; 111; 45; 56; 47; 99; 97; 114; 116; 115; 88; 47; 99; 46; 112; 56].
 Definition t_inc2 : bytes := [46; 46; 47; 99; 97; 114; 116; 115; 89; 47; 120; 46; 108; 117; 97].  (* ../cartsY/x.lua *)
 
-Lemma include_carts_folder_refuted :
+Lemma carts_folder_prefix_variant_refuted :
   exists p,
-    resolve_include_now t_cwd t_home (fun _ => true) t_cart2 t_inc2 = Ok p /\
-    underb t_cwd (inc_root_now t_cwd t_home t_cart2) p = false /\
-    underb t_cwd (inc_root_now t_cwd t_home t_cart2) t_cart2 = false.
+    resolve_include_prefix t_cwd t_home (fun _ => true) t_cart2 t_inc2 = Ok p /\
+    underb t_cwd (inc_root_prefix t_cwd t_home t_cart2) p = false /\
+    underb t_cwd (inc_root_prefix t_cwd t_home t_cart2) t_cart2 = false.
 Proof.
   eexists. vm_compute. repeat split; reflexivity.
 Qed.
 
-(* ... and the patched model rejects both witnesses *)
-Lemma include_fixed_rejects_witnesses :
-  resolve_include_fixed_now t_cwd t_home (fun _ => true) t_cart t_inc = Err IncludeOutside /\
-  resolve_include_fixed_now t_cwd t_home (fun _ => true) t_cart2 t_inc2 = Err IncludeOutside.
-Proof. vm_compute. split; reflexivity. Qed.
+(* ... and today's code rejects both witnesses; the cartsX cart now has its own directory as root *)
+Lemma include_rejects_witnesses :
+  resolve_include_now t_cwd t_home (fun _ => true) t_cart t_inc = Err IncludeOutside /\
+  resolve_include_now t_cwd t_home (fun _ => true) t_cart2 t_inc2 = Err IncludeOutside /\
+  inc_root_now t_cwd t_home t_cart2 = dirname t_cart2.
+Proof. vm_compute. repeat split; reflexivity. Qed.
+
+(* ---- the statements for the model instantiated with the regenerated constants ---- *)
+Lemma abspath_location_now cwd p :
+  absolute cwd = true ->
+  locate cwd (abspath cwd p) = locate cwd p /\ locate cwd (normpath p) = locate cwd p /\
+  Forall not_parent (components (abspath cwd p)).
+Proof.
+  intros H. split; [apply locate_abspath; exact H|]. split; [apply locate_normpath|].
+  apply abspath_no_parent. exact H.
+Qed.
+
+Lemma include_contained_now cwd home isfile cart inc p :
+  absolute cwd = true ->
+  resolve_include_now cwd home isfile cart inc = Ok p ->
+  under cwd (inc_root_now cwd home cart) p.
+Proof.
+  intros Hc. unfold resolve_include_now, inc_root_now.
+  apply (include_contained pico8_cart_paths root_detection_kind include_containment_kind cwd home isfile Hc).
+  left. reflexivity.
+Qed.
+
+Lemma include_root_sound_now cwd home cart :
+  absolute cwd = true ->
+  let root := inc_root_now cwd home cart in
+  (exists c, In c pico8_cart_paths /\ root = full_path cwd home c /\ under cwd root (expanduser home cart))
+  \/ (root = dirname (full_path cwd home cart) /\
+      locate cwd root = locate cwd (dir_part (full_path cwd home cart))).
+Proof.
+  intros Hc root. subst root. unfold inc_root_now.
+  destruct (root_sound pico8_cart_paths root_detection_kind cwd home Hc cart (or_intror eq_refl)) as [H|H];
+    [left; exact H|right].
+  split; [exact H|]. rewrite H. apply locate_dirname.
+Qed.
+
+Lemma include_rejects_outside_now cwd home isfile cart inc :
+  absolute cwd = true ->
+  underb cwd (inc_root_now cwd home cart) (join (dirname cart) inc) = false ->
+  resolve_include_now cwd home isfile cart inc = Err IncludeOutside.
+Proof.
+  intros Hc. unfold resolve_include_now, inc_root_now.
+  apply (include_rejects_outside pico8_cart_paths root_detection_kind include_containment_kind cwd home isfile Hc).
+  left. reflexivity.
+Qed.
+
+Lemma include_ok_spec_now cwd home isfile cart inc p :
+  absolute cwd = true ->
+  resolve_include_now cwd home isfile cart inc = Ok p ->
+  p = include_full_path cwd cart inc /\ isfile p = true /\ locate cwd p = locate cwd (join (dirname cart) inc).
+Proof.
+  intros Hc. unfold resolve_include_now.
+  apply (include_ok_spec pico8_cart_paths root_detection_kind include_containment_kind cwd home isfile Hc).
+Qed.
+
+Lemma include_prefix_variants_refuted :
+  (exists cwd home isfile cart inc p, absolute cwd = true /\
+     resolve_include_prefix cwd home isfile cart inc = Ok p /\
+     underb cwd (inc_root_prefix cwd home cart) p = false)
+  /\ (exists p, resolve_include_prefix t_cwd t_home (fun _ => true) t_cart2 t_inc2 = Ok p /\
+       underb t_cwd (inc_root_prefix t_cwd t_home t_cart2) p = false /\
+       underb t_cwd (inc_root_prefix t_cwd t_home t_cart2) t_cart2 = false)
+  /\ (resolve_include_now t_cwd t_home (fun _ => true) t_cart t_inc = Err IncludeOutside /\
+      resolve_include_now t_cwd t_home (fun _ => true) t_cart2 t_inc2 = Err IncludeOutside /\
+      inc_root_now t_cwd t_home t_cart2 = dirname t_cart2).
+Proof. exact (conj include_prefix_variant_refuted (conj carts_folder_prefix_variant_refuted include_rejects_witnesses)). Qed.
